@@ -68,9 +68,8 @@ Proof.
     match goal with |- P2all _ (obs_step _ _ (_, ?ev)) => pose proof (own_obs_shape cs o th ev i Et) as Hshape; cbn beta iota in Hshape end;
     comb_tac HP i E0 Hshape Hwk
   end.
-  all: try match goal with E : pc _ = _ |- _ => rewrite E in * end.
-  all: rewrite ?N.eqb_refl in *.
-  all: try (p2_clause; fail).
+  all: try match goal with E : pc _ = _ |- _ => rewrite E end.
+  all: try (p2_goal; fail).
   all: try (w_contra (W_RunChecked cs) Et; fail).
   all: try (w_contra (W_BackoffElapsed cs) Et; fail).
   all: try (let Hw := fresh in intros Hw; pose proof (proj2 Hwk Hw); p2_clause; fail).
